@@ -117,12 +117,64 @@ HOSTILE_NUMBERS = [10 ** 400, -10 ** 400, 2 ** 1024, {"$": "float", "s": "inf"},
                    {"$": "dec", "s": "NaN"}, {"$": "dec", "s": "Infinity"}, {"$": "dec", "s": "sNaN"}, 1e14, 253402300800, -62135596801]
 HOSTILE_STRINGS = ["sNaN", "-sNaN", "NaN", "1/0", "1e999", "nan", "inf", "-inf", "Infinity", "1" * 400, "1e400", "é", "\ud800", "１２", "0x10", "1_000", " 1",
                    "9999-99-99", "0000-01-01", "24:00:00", "2020-02-30", "12345678123456781234567812345678", "1.2.3.4/33", "::1/129",
-                   "[", "(?P<x>", "a" * 300, "====", "YQ", "\x00"]
+                   "[", "(?P<x>", "a" * 300, "====", "YQ", "\x00", "a{4294967296}", "x{,99999999999999999999}", "(?<=a+)b", "\\8"]
+# strings aimed at the parser behind one scalar type (used three times as often as the general list when the type of
+# the case contains that scalar)
+HOSTILE_BY_TAG = {
+    "pattern": ["a{4294967296}", "x{,99999999999999999999}", "(?<=a+)b", "\\8", "(?P<n>a)(?P<n>b)", "[z-a]", "(?P=x)", "\\", "(", "a**",
+                "(?z)", "(?i", "\\N{nope}", "[[:alpha:]]", "(?P<1>a)"],
+    "date": ["2020-02-30", "2020-13-01", "0000-01-01", "9999-12-31", "10000-01-01", "2020-1-1", "20200101", "2020-W01-1", "２０２０-01-01",
+             "2020-01-01T00:00:00", " 2020-01-01", "2020-01-01\n", "-001-01-01"],
+    "time": ["24:00:00", "23:60:00", "23:59:60", "1:2:3", "12:00:00+25:00", "12:00:00.1234567", "120000", "12:00:00Z", "12:00:00+00:00:00.5"],
+    "datetime": ["2020-02-30T00:00:00", "2020-01-01T24:00:00", "2020-01-01 00:00:00+24:00", "2020-01-01", "2020-01-01T00:00:00Z",
+                 "9999-12-31T23:59:59.999999+00:00", "0001-01-01T00:00:00-23:59", "2020-01-01T00:00:00.1234567"],
+    "uuid": ["12345678123456781234567812345678", "{12345678-1234-5678-1234-567812345678}", "urn:uuid:12345678-1234-5678-1234-567812345678",
+             "12345678-1234-5678-1234-56781234567", "g2345678-1234-5678-1234-567812345678", "1234567８-1234-5678-1234-567812345678"],
+    "decimal": ["sNaN", "-sNaN", "NaN123", "1E+999999999999999999", "1_0", "１２", "Infinity", "+-1", ".", "1e", "0x1"],
+    "fraction": ["1/0", "1/-2", "1 / 2", "1/2/3", "1e400/1", "１/２", "-0/5", "1_0/3", "nan", "inf", ".5/1"],
+    "complex": ["1+", "j", "1+2i", "(1+2j)", "1 + 2j", "nan+nanj", "1e999j", "１j"],
+    "bytes": ["YQ", "YQ=", "YQ===", "Y Q==", "YQ==\n", "====", "YWJj_-", "YWJj+/", "é", "YQ\x00="],
+    "ip": ["1.2.3.4/33", "::1/129", "1.2.3", "01.2.3.4", "1.2.3.4/", "::ffff:1.2.3.4", "1.2.3.4%eth0", "１.2.3.4", "fe80::1%", "1.2.3.4/24/8"],
+    "timedelta": ["1e400", "nan", "inf"],
+    "int": ["1" * 4301, "１２", "1_000", " 1", "0x10", "1e3", "+1", "-0", "1.0"],
+    "float": ["1" * 400, "1e999", "nan", "-inf", "１.５", "1_0.5", "0x1p3", " 1.5 ", "1,5", "infinity"],
+}
+def _tup(*xs):
+    return {"$": "t", "v": list(xs)}
+
+
+# non-string data aimed at constructors that lax loaders delegate to (Decimal takes a (sign, digits, exponent) tuple ...)
+HOSTILE_DATA_BY_TAG = {
+    "decimal": [_tup(0, _tup(1, 2), "F"), [10 ** 129, "Infinity", [None]], _tup(2, _tup(1), 0), _tup(0, _tup(10), 0),
+                _tup(0, _tup(1), 10 ** 30), _tup(0, _tup(), "n"), _tup(0, _tup(1), "N"), [0, [1], 0], _tup(-1, _tup(1), 0),
+                _tup(0, _tup(-1), 0), _tup(0, "12", 0), _tup(True, _tup(1), 1.5), {"$": "float", "s": "nan"}, True, _tup()],
+    "fraction": [_tup(1, 0), [1, 2], {"$": "dec", "s": "NaN"}, {"$": "dec", "s": "Infinity"}, {"$": "float", "s": "inf"},
+                 {"$": "float", "s": "nan"}, True, {"$": "frac", "s": "1/3"}, 1.5],
+    "complex": [{"$": "cx", "r": "1.0", "i": "2.0"}, _tup(1, 2), [1, 2], True, {"$": "dec", "s": "sNaN"}, {"$": "frac", "s": "1/3"}],
+    "int": [{"$": "dec", "s": "NaN"}, {"$": "dec", "s": "Infinity"}, {"$": "dec", "s": "sNaN"}, {"$": "float", "s": "nan"},
+            {"$": "float", "s": "inf"}, {"$": "frac", "s": "1/3"}, {"$": "bytes", "h": "31"}, {"$": "bytearray", "h": "3132"},
+            {"$": "bytes", "h": "ff"}, {"$": "cx", "r": "1.0", "i": "0.0"}],
+    "float": [{"$": "dec", "s": "sNaN"}, {"$": "dec", "s": "1E+400"}, {"$": "frac", "s": "1/3"}, {"$": "bytes", "h": "31"}, 10 ** 400,
+              {"$": "pow10", "e": 5000, "neg": False}, {"$": "cx", "r": "1.0", "i": "0.0"}],
+    "date": [0, -1, 10 ** 14, 1.5, {"$": "float", "s": "nan"}, _tup(2020, 1, 1), True],
+    "datetime": [0, -62135596801, 253402300800, 10 ** 14, {"$": "float", "s": "nan"}, {"$": "float", "s": "inf"}, 1e308, True],
+    "timedelta": [{"$": "float", "s": "nan"}, {"$": "float", "s": "inf"}, 1e308, 10 ** 14, 86400000000000, -86399999913601,
+                  {"$": "dec", "s": "NaN"}, {"$": "dec", "s": "1E+400"}, {"$": "dec", "s": "sNaN"}, True, {"$": "frac", "s": "1/3"}],
+    "uuid": [0, 2 ** 128, -1, {"$": "bytes", "h": "00" * 16}, {"$": "bytes", "h": "00"}, _tup(1, 2, 3, 4, 5, 6)],
+    "ip": [0, -1, 2 ** 32, 2 ** 128, {"$": "bytes", "h": "01020304"}, {"$": "bytes", "h": "00" * 16}, {"$": "bytes", "h": "00"},
+           _tup("1.2.3.4", 33), _tup("1.2.3.4", "x"), _tup("1.2.3.4",), _tup(16909060, 24), ["1.2.3.4", 24], True],
+    "pattern": [{"$": "bytes", "h": "61"}, 5],
+    "bytes": [{"$": "bytes", "h": "61"}, {"$": "bytearray", "h": "61"}, 5, [1, 2]],
+}
+for _t in ("bytearray", "bytestring", "bytesio", "iobytes"):
+    HOSTILE_DATA_BY_TAG[_t] = HOSTILE_DATA_BY_TAG["bytes"]
+for _t in ("bytearray", "bytestring", "bytesio", "iobytes"):
+    HOSTILE_BY_TAG[_t] = HOSTILE_BY_TAG["bytes"]
 LOOKALIKE = [(0, False), (1, True), (False, 0), (True, 1), (1, 1.0), (1.0, 1), (0, 0.0), (1, "1"), ("1", 1), (None, "None"),
              (None, 0), (None, ""), (None, []), (True, "true"), (0, "0"), (0, None)]
 
 
-def mutate(draw, v, root_structure=False):  # noqa: C901, PLR0911, PLR0912
+def mutate(draw, v, root_structure=False, aimed=()):  # noqa: C901, PLR0911, PLR0912
     """One mutation of a plain-data vspec (``draw`` comes from an enclosing composite strategy).
     ``root_structure``: mutate the shape of the root container itself (kind, length, keys)."""
     pos = list(positions(v))
@@ -139,7 +191,7 @@ def mutate(draw, v, root_structure=False):  # noqa: C901, PLR0911, PLR0912
     if isinstance(node, (int, float)) and not isinstance(node, bool):
         ops += ["hostile_number", "hostile_number"]
     if isinstance(node, str):
-        ops += ["hostile_string"]
+        ops += ["hostile_string", "hostile_string"] if aimed else ["hostile_string"]
     if isinstance(node, str):
         ops += ["str_mut", "str_mut"]
     if isinstance(node, list) or (isinstance(node, dict) and node.get("$") in ("t", "set", "fset", "deque")):
@@ -156,7 +208,7 @@ def mutate(draw, v, root_structure=False):  # noqa: C901, PLR0911, PLR0912
     elif op == "hostile_number":
         new = draw(st.sampled_from(HOSTILE_NUMBERS))
     elif op == "hostile_string":
-        new = draw(st.sampled_from(HOSTILE_STRINGS))
+        new = draw(st.sampled_from([*aimed, *aimed, *aimed, *HOSTILE_STRINGS] if aimed else HOSTILE_STRINGS))
     elif op == "lookalike":
         cands = [b for a, b in LOOKALIKE if type(a) is type(node) and a == node]
         new = draw(st.sampled_from(cands)) if cands else draw(st.sampled_from(_LEAVES))
@@ -211,7 +263,10 @@ def mutate(draw, v, root_structure=False):  # noqa: C901, PLR0911, PLR0912
             del items[draw(st.integers(0, len(items) - 1))]
         new = {**node, "v": items}
     elif op == "add_key":
-        new = {**node, "v": [*node["v"], [draw(st.sampled_from(["extra", "zz", "a", "b", 0, None])), draw(st.sampled_from(_LEAVES))]]}
+        extra = [[draw(st.sampled_from(["extra", "zz", "a", "b", 0, None])), draw(st.sampled_from(_LEAVES))]]
+        if draw(st.integers(0, 2)) == 0:   # several unknown keys of different types at once
+            extra += [[k, draw(st.sampled_from(_LEAVES))] for k in draw(st.sampled_from([[5, "q"], [None, "w", 1.5], [True, "t"]]))]
+        new = {**node, "v": [*node["v"], *extra]}
     elif op == "rename_key":
         items = [list(p) for p in node["v"]]
         if items:
@@ -260,11 +315,12 @@ def st_near_valid(draw, tsp, max_mut: int = 3, layouts=None, root_structure=Fals
     v = encode_any(dumped)
     k = draw(st.sampled_from([0, *range(1, max_mut + 1), *range(1, max_mut + 1), *range(1, max_mut + 1)]))
     ops = []
+    aimed = tuple(x for tag in sorted({s[0] for s in tspec.walk(tsp)}) for x in HOSTILE_BY_TAG.get(tag, ()))
     if root_structure:
         v, op = mutate(draw, v, root_structure=True)
         ops.append("root:" + op)
     for _ in range(k):
-        v, op = mutate(draw, v)
+        v, op = mutate(draw, v, aimed=aimed)
         ops.append(op)
     return v, ops
 
